@@ -58,6 +58,19 @@ pub(crate) fn ref_crc_step(mut crc: u16, byte: u8) -> u16 {
     crc
 }
 
+/// The harness's own table-driven CRC-16/MODBUS instance (NOT rodbus's constant), advanced by one byte.
+/// `c06_crc_step_lemma` proves this equal to the bit-wise `ref_crc_step` for all 2^24 (state, byte) pairs, so
+/// frame harnesses may fold it instead of asking the solver to re-prove table-vs-bitwise equivalence over
+/// several symbolic bytes (which exhausted 24 GB).
+pub(crate) const VERIF_CRC: crc::Crc<u16> = crc::Crc::<u16>::new(&crc::CRC_16_MODBUS);
+
+pub(crate) fn tab_crc_step(state: u16, byte: u8) -> u16 {
+    // digest_with_initial applies the algorithm's input reflection to the initial value; undo it
+    let mut d = VERIF_CRC.digest_with_initial(state.reverse_bits());
+    d.update(&[byte]);
+    d.finalize()
+}
+
 pub(crate) fn ref_crc(bytes: &[u8]) -> u16 {
     let mut crc = 0xFFFFu16;
     let mut i = 0;
@@ -66,4 +79,309 @@ pub(crate) fn ref_crc(bytes: &[u8]) -> u16 {
         i += 1;
     }
     crc
+}
+
+// ---------------------------------------------------------------------------------------------
+// Application handler model shared by the server kernels and the session glue harnesses
+
+use crate::exception::ExceptionCode;
+use crate::server::{RequestHandler, WriteCoils, WriteRegisters};
+use crate::types::Indexed;
+use std::cell::Cell;
+
+/// the symbolic "application state" the reference server and the real handler both read
+#[derive(Clone, Copy)]
+pub(crate) struct Tables {
+    pub(crate) coil_bits: u16,
+    pub(crate) di_bits: u16,
+    pub(crate) hregs: [u16; 4],
+    pub(crate) iregs: [u16; 4],
+    /// reads of this address raise `ex_code`
+    pub(crate) ex_addr: Option<u16>,
+    pub(crate) ex_code: ExceptionCode,
+    /// result of every write callback
+    pub(crate) write_result: Result<(), ExceptionCode>,
+}
+
+pub(crate) fn any_exception() -> ExceptionCode {
+    let raw: u8 = kani::any();
+    ExceptionCode::from(raw)
+}
+
+impl Tables {
+    pub(crate) fn any() -> Self {
+        Tables {
+            coil_bits: kani::any(),
+            di_bits: kani::any(),
+            hregs: kani::any(),
+            iregs: kani::any(),
+            ex_addr: if kani::any() { Some(kani::any()) } else { None },
+            ex_code: any_exception(),
+            write_result: if kani::any() { Ok(()) } else { Err(any_exception()) },
+        }
+    }
+    pub(crate) fn coil(&self, a: u16) -> bool {
+        (self.coil_bits >> (a & 15)) & 1 == 1
+    }
+    pub(crate) fn di(&self, a: u16) -> bool {
+        (self.di_bits >> (a & 15)) & 1 == 1
+    }
+    pub(crate) fn hreg(&self, a: u16) -> u16 {
+        self.hregs[(a & 3) as usize]
+    }
+    pub(crate) fn ireg(&self, a: u16) -> u16 {
+        self.iregs[(a & 3) as usize]
+    }
+}
+
+/// instrumented handler: answers from `Tables`, logs every invocation
+pub(crate) struct VH {
+    pub(crate) t: Tables,
+    // read log
+    pub(crate) reads: Cell<u32>,
+    pub(crate) read_kinds: Cell<u8>,
+    pub(crate) first_read: Cell<u16>,
+    pub(crate) last_read: Cell<u16>,
+    pub(crate) reads_in_order: Cell<bool>,
+    // write log
+    pub(crate) writes: u32,
+    pub(crate) write_kind: u8,
+    pub(crate) w_start: u16,
+    pub(crate) w_count: u16,
+    pub(crate) w_value: u16,
+    pub(crate) w_items: u32,
+    pub(crate) w_seq_ok: bool,
+    /// which item of a multiple write to record (chosen by the harness, usually symbolic)
+    pub(crate) probe: u16,
+    pub(crate) probe_index: u16,
+    pub(crate) probe_value: u16,
+    pub(crate) probe_hit: bool,
+}
+
+impl VH {
+    pub(crate) fn new(t: Tables, probe: u16) -> Self {
+        VH {
+            t,
+            reads: Cell::new(0),
+            read_kinds: Cell::new(0),
+            first_read: Cell::new(0),
+            last_read: Cell::new(0),
+            reads_in_order: Cell::new(true),
+            writes: 0,
+            write_kind: 0,
+            w_start: 0,
+            w_count: 0,
+            w_value: 0,
+            w_items: 0,
+            w_seq_ok: true,
+            probe,
+            probe_index: 0,
+            probe_value: 0,
+            probe_hit: false,
+        }
+    }
+    pub(crate) fn calls(&self) -> u32 {
+        self.reads.get() + self.writes
+    }
+    fn log_read(&self, kind: u8, a: u16) {
+        let n = self.reads.get();
+        if n == 0 {
+            self.first_read.set(a);
+        } else if a != self.last_read.get().wrapping_add(1) {
+            self.reads_in_order.set(false);
+        }
+        self.last_read.set(a);
+        self.reads.set(n + 1);
+        self.read_kinds.set(self.read_kinds.get() | kind);
+    }
+    fn raise(&self, a: u16) -> Option<ExceptionCode> {
+        match self.t.ex_addr {
+            Some(x) if x == a => Some(self.t.ex_code),
+            _ => None,
+        }
+    }
+}
+
+impl RequestHandler for VH {
+    fn read_coil(&self, a: u16) -> Result<bool, ExceptionCode> {
+        self.log_read(1, a);
+        match self.raise(a) {
+            Some(e) => Err(e),
+            None => Ok(self.t.coil(a)),
+        }
+    }
+    fn read_discrete_input(&self, a: u16) -> Result<bool, ExceptionCode> {
+        self.log_read(2, a);
+        match self.raise(a) {
+            Some(e) => Err(e),
+            None => Ok(self.t.di(a)),
+        }
+    }
+    fn read_holding_register(&self, a: u16) -> Result<u16, ExceptionCode> {
+        self.log_read(4, a);
+        match self.raise(a) {
+            Some(e) => Err(e),
+            None => Ok(self.t.hreg(a)),
+        }
+    }
+    fn read_input_register(&self, a: u16) -> Result<u16, ExceptionCode> {
+        self.log_read(8, a);
+        match self.raise(a) {
+            Some(e) => Err(e),
+            None => Ok(self.t.ireg(a)),
+        }
+    }
+    fn write_single_coil(&mut self, v: Indexed<bool>) -> Result<(), ExceptionCode> {
+        self.writes += 1;
+        self.write_kind |= 1;
+        self.w_start = v.index;
+        self.w_count = 1;
+        self.w_value = v.value as u16;
+        self.t.write_result
+    }
+    fn write_single_register(&mut self, v: Indexed<u16>) -> Result<(), ExceptionCode> {
+        self.writes += 1;
+        self.write_kind |= 2;
+        self.w_start = v.index;
+        self.w_count = 1;
+        self.w_value = v.value;
+        self.t.write_result
+    }
+    fn write_multiple_coils(&mut self, v: WriteCoils) -> Result<(), ExceptionCode> {
+        self.writes += 1;
+        self.write_kind |= 4;
+        self.w_start = v.range.start;
+        self.w_count = v.range.count;
+        let mut k: u16 = 0;
+        for item in v.iterator {
+            if item.index != v.range.start.wrapping_add(k) {
+                self.w_seq_ok = false;
+            }
+            if k == self.probe {
+                self.probe_hit = true;
+                self.probe_index = item.index;
+                self.probe_value = item.value as u16;
+            }
+            k = k.wrapping_add(1);
+            self.w_items += 1;
+        }
+        self.t.write_result
+    }
+    fn write_multiple_registers(&mut self, v: WriteRegisters) -> Result<(), ExceptionCode> {
+        self.writes += 1;
+        self.write_kind |= 8;
+        self.w_start = v.range.start;
+        self.w_count = v.range.count;
+        let mut k: u16 = 0;
+        for item in v.iterator {
+            if item.index != v.range.start.wrapping_add(k) {
+                self.w_seq_ok = false;
+            }
+            if k == self.probe {
+                self.probe_hit = true;
+                self.probe_index = item.index;
+                self.probe_value = item.value;
+            }
+            k = k.wrapping_add(1);
+            self.w_items += 1;
+        }
+        self.t.write_result
+    }
+}
+
+// ---------------------------------------------------------------------------------------------
+// Reference Modbus server (written from the Modbus Application Protocol V1.1b3, not from rodbus)
+
+pub(crate) fn be16(hi: u8, lo: u8) -> u16 {
+    ((hi as u16) << 8) | lo as u16
+}
+
+#[derive(Clone, Copy, PartialEq)]
+pub(crate) enum RefReq {
+    /// function code not supported: exception 01 on fc|0x80
+    Unknown,
+    /// syntactically invalid or beyond the quantity limits: exception 03
+    Invalid,
+    ReadBits { start: u16, count: u16 },
+    ReadRegs { start: u16, count: u16 },
+    WriteCoil { index: u16, on: bool },
+    WriteReg { index: u16, value: u16 },
+    /// data bytes start at payload offset 5
+    WriteCoils { start: u16, count: u16 },
+    WriteRegs { start: u16, count: u16 },
+}
+
+fn range_ok(start: u16, count: u16, limit: u16) -> bool {
+    count >= 1 && count <= limit && (start as u32) + (count as u32) <= 65536
+}
+
+/// classify a request PDU = [fc] ++ payload.
+/// The byte-count field of the write-multiple requests is a don't-care when the payload length is the
+/// one implied by the quantity (property C01 lists "wrong length for its quantity", not the field).
+pub(crate) fn ref_classify(fc: u8, p: &[u8]) -> RefReq {
+    let n = p.len();
+    match fc {
+        1 | 2 | 3 | 4 => {
+            if n != 4 {
+                return RefReq::Invalid;
+            }
+            let start = be16(p[0], p[1]);
+            let count = be16(p[2], p[3]);
+            let limit = if fc <= 2 { 2000 } else { 125 };
+            if !range_ok(start, count, limit) {
+                return RefReq::Invalid;
+            }
+            if fc <= 2 {
+                RefReq::ReadBits { start, count }
+            } else {
+                RefReq::ReadRegs { start, count }
+            }
+        }
+        5 => {
+            if n != 4 {
+                return RefReq::Invalid;
+            }
+            let v = be16(p[2], p[3]);
+            if v != 0xFF00 && v != 0x0000 {
+                return RefReq::Invalid;
+            }
+            RefReq::WriteCoil { index: be16(p[0], p[1]), on: v == 0xFF00 }
+        }
+        6 => {
+            if n != 4 {
+                return RefReq::Invalid;
+            }
+            RefReq::WriteReg { index: be16(p[0], p[1]), value: be16(p[2], p[3]) }
+        }
+        15 | 16 => {
+            if n < 5 {
+                return RefReq::Invalid;
+            }
+            let start = be16(p[0], p[1]);
+            let count = be16(p[2], p[3]);
+            let limit = if fc == 15 { 1968 } else { 123 };
+            if !range_ok(start, count, limit) {
+                return RefReq::Invalid;
+            }
+            let data = if fc == 15 { (count as usize + 7) / 8 } else { 2 * count as usize };
+            if n != 5 + data {
+                return RefReq::Invalid;
+            }
+            if fc == 15 {
+                RefReq::WriteCoils { start, count }
+            } else {
+                RefReq::WriteRegs { start, count }
+            }
+        }
+        _ => RefReq::Unknown,
+    }
+}
+
+/// number of handler reads the reference server performs for a read of [start, start+count):
+/// in address order, stopping at the first address that raises
+pub(crate) fn ref_reads(t: &Tables, start: u16, count: u16) -> (u32, Option<ExceptionCode>) {
+    match t.ex_addr {
+        Some(x) if x >= start && (x - start) < count => ((x - start) as u32 + 1, Some(t.ex_code)),
+        _ => (count as u32, None),
+    }
 }
